@@ -411,6 +411,10 @@ class Gen:
                 e(depth, "from . import %s" % self.name() if not self.py2 or v >= (2, 5) else "import os")
         elif k == 28 and ctx.get("func"):
             e(depth, "global %s" % self.fresh("gv"))
+        elif k == 28 and v >= (3, 12):
+            self.features.add("type-alias")
+            e(depth, self.pick(["type %s = int", "type %s[T] = list[T]", "type %s[T: int, *Ts] = tuple[T, *Ts]",
+                                "type %s[**P] = dict[str, int]"]) % self.fresh("Alias"))
         elif k == 29 and v >= (3, 10) and not ctx.get("fin"):
             self.features.add("match")
             e(depth, "match %s:" % self.name())
@@ -496,7 +500,12 @@ class Gen:
                 self.emit(depth, "@%s" % self.pick(["staticmethod", "helper", "compute(1)"]))
                 self.features.add("decorator")
         ret = " -> int" if (not self.py2 and self.chance(6)) else ""
-        self.emit(depth, "%sdef %s(%s)%s:" % ("async " if is_async else "", name, params, ret))
+        tp = ""
+        if v >= (3, 12) and self.chance(5):
+            # PEP 695: the compiler adds hidden locals (.defaults, .kwdefaults, .type_params) around generic functions
+            tp = self.pick(["[T]", "[T: int]", "[T, *Ts]", "[T, **P]", "[T: (int, str)]"] + (["[T = int]"] if v >= (3, 13) else []))
+            self.features.add("pep695-def")
+        self.emit(depth, "%sdef %s%s(%s)%s:" % ("async " if is_async else "", name, tp, params, ret))
         if self.chance(4):
             self.emit(depth + 1, '"""doc %s"""' % name)
         fctx = {"func": True, "async": is_async, "loop": False, "fin": False, "kind": kind}
@@ -524,6 +533,9 @@ class Gen:
         self.features.add("class")
         if self.chance(5):
             self.emit(depth, "@%s" % self.pick(["helper", "compute(2)"]))
+        if self.v >= (3, 12) and self.chance(5):
+            name += self.pick(["[T]", "[T: int]", "[T, *Ts]"])
+            self.features.add("pep695-class")
         self.emit(depth, "class %s%s:" % (name, base))
         if self.chance(3):
             self.emit(depth + 1, '"""class doc"""')
@@ -535,7 +547,7 @@ class Gen:
                 self.emit(depth + 2, "super().%s()" % m)
                 self.features.add("super()")
             elif self.chance(3):
-                self.emit(depth + 2, "super(%s, self).%s()" % (name, m))
+                self.emit(depth + 2, "super(%s, self).%s()" % (name.split("[")[0], m))
             self.block(depth + 2, {"func": True, "loop": False, "class": False, "fin": False}, self.i(1, 2))
 
     def module(self):
